@@ -1244,7 +1244,13 @@ func vActive(d *vDid) bool {
 
 // ordinary edits of a document
 func (g *vGen) randomEdit(s *vDocSpec) {
-	switch g.rng.Intn(9) {
+	switch g.rng.Intn(10) {
+	case 9: // a key listed under exactly one relationship other than capabilityInvocation
+		k := g.freshKey()
+		id := s.ID + "#" + k.b64
+		s.VMs = append(s.VMs, vVMSpec{ID: id, Key: k})
+		rel := []string{"capabilityDelegation", "authentication", "keyAgreement", "capabilityDelegation"}[g.rng.Intn(4)]
+		s.Rels[rel] = append(s.Rels[rel], id)
 	case 8: // a well-formed key whose `controller` member names another DID (allowed: only the id is bound to the document)
 		k := g.freshKey()
 		id := s.ID + "#" + k.b64
@@ -1556,6 +1562,24 @@ func (g *vGen) collidingKey(with *vKey) *vKey {
 	return g.freshKey()
 }
 
+// an update (no embedded key) for the never-created DID of key v; the proposed document lists the signer's key (published
+// by another, regularly created document whose transaction is among the prevs) for capabilityInvocation
+func (g *vGen) updateUnknownListingSigner(v *vKey, signer vVMSpec, signerRef hash.SHA256Hash) *vPair {
+	spec := vDocUnderDID(signer.Key, v.did)
+	prevs := []hash.SHA256Hash{signerRef}
+	return g.emit("update-unknown-did-listing-signer", spec.payload(), vSignSpec{key: signer.Key, kid: signer.ID, prevs: prevs, clock: g.clockFor(prevs)}, func(ok bool, tx dag.Transaction) {
+		if ok {
+			d := g.dids[spec.ID]
+			if d == nil {
+				d = &vDid{key: v}
+				g.dids[spec.ID] = d
+				g.order = append(g.order, spec.ID)
+			}
+			d.versions = append(d.versions, vVersion{spec: spec.clone(), ref: tx.Ref(), clock: tx.Clock(), time: tx.SigningTime().Unix()})
+		}
+	})
+}
+
 // ---- scenario steps. Each returns the emitted pair (bookkeeping runs when the outcome is known).
 
 func (g *vGen) stepRandom() *vPair {
@@ -1619,10 +1643,15 @@ func (g *vGen) stepRandom() *vPair {
 				for _, vm := range l.spec.capInvKeys() {
 					ci[vm.ID] = true
 				}
+				var cand []vVMSpec
 				for _, vm := range l.spec.VMs {
 					if !ci[vm.ID] && vm.Key != nil {
-						return vm.Key, vm.ID, nil
+						cand = append(cand, vm)
 					}
+				}
+				if len(cand) > 0 {
+					vm := cand[g.rng.Intn(len(cand))]
+					return vm.Key, vm.ID, nil
 				}
 			}
 			if o := g.someDid(func(d *vDid) bool { return d != active && vActive(d) && len(d.latest().spec.capInvKeys()) > 0 }); o != nil {
@@ -1775,6 +1804,9 @@ func (g *vGen) stepRandom() *vPair {
 		signer := active.latest()
 		if ks := signer.spec.capInvKeys(); len(ks) > 0 {
 			prevs := []hash.SHA256Hash{signer.ref}
+			if g.rng.Intn(2) == 0 { // the proposed document itself lists the signer's key for capabilityInvocation
+				return g.updateUnknownListingSigner(k, ks[0], signer.ref)
+			}
 			return g.emit("update-unknown-did", spec.payload(), vSignSpec{key: ks[0].Key, kid: ks[0].ID, prevs: prevs, clock: g.clockFor(prevs)}, nil)
 		}
 		return g.update(vUpdateOpts{kind: "update", target: active, next: g.randomEdit})
@@ -2215,6 +2247,107 @@ func vScenario(g *vGen, kind string, run func(p *vPair) bool) {
 			}
 			own = x.latest().spec.capInvKeys()[0]
 		}
+	case kind == "unknown-did":
+		// a never-created DID V: update transactions naming it, signed by the key of a regularly created DID A whose
+		// transaction is among the prevs and whose key the proposed document lists; then V's real creation; then A's key again
+		run(g.create("ud:create-A", nil, nil, nil))
+		a := g.dids[g.order[len(g.order)-1]]
+		if a == nil || a.latest() == nil || len(a.latest().spec.capInvKeys()) == 0 {
+			return
+		}
+		v := g.freshKey()
+		ak := a.latest().spec.capInvKeys()[0]
+		run(g.updateUnknownListingSigner(v, ak, a.latest().ref))
+		run(g.updateUnknownListingSigner(g.freshKey(), ak, a.latest().ref))
+		spec := vBasicDoc(v)
+		run(g.emit("ud:create-V-by-own-key", spec.payload(), vSignSpec{key: v, kid: v.did + "#" + v.b64, attach: v, clock: 0}, func(ok bool, tx dag.Transaction) {
+			if ok {
+				d := g.dids[spec.ID]
+				if d == nil {
+					d = &vDid{key: v}
+					g.dids[spec.ID] = d
+					g.order = append(g.order, spec.ID)
+				}
+				d.versions = append(d.versions, vVersion{spec: spec.clone(), ref: tx.Ref(), clock: tx.Clock(), time: tx.SigningTime().Unix()})
+			}
+		}))
+		if vd := g.dids[v.did]; vd != nil && vd.latest() != nil {
+			run(g.update(vUpdateOpts{kind: "ud:update-V-by-foreign-key", target: vd, next: g.randomEdit, signer: func() (*vKey, string, []hash.SHA256Hash) {
+				return ak.Key, ak.ID, []hash.SHA256Hash{a.latest().ref}
+			}}))
+		}
+	case kind == "relationship-subsets":
+		// keys listed under exactly one relationship; only capabilityInvocation keys may sign updates — of the document
+		// itself and of a document it controls
+		rels := []string{"capabilityDelegation", "authentication", "assertionMethod", "keyAgreement"}
+		relKeys := map[string]vVMSpec{}
+		run(g.create("rs:create-X", nil, func(s *vDocSpec, k *vKey) {
+			s.Rels["assertionMethod"] = nil
+			for _, rn := range rels {
+				kk := g.freshKey()
+				vm := vVMSpec{ID: s.ID + "#" + kk.b64, Key: kk}
+				s.VMs = append(s.VMs, vm)
+				s.Rels[rn] = append(s.Rels[rn], vm.ID)
+				relKeys[rn] = vm
+			}
+		}, nil))
+		x := g.dids[g.order[len(g.order)-1]]
+		if x == nil || x.latest() == nil {
+			return
+		}
+		for _, rn := range rels {
+			vm := relKeys[rn]
+			run(g.update(vUpdateOpts{kind: "rs:update-by-" + rn + "-only-key", target: x, signer: func() (*vKey, string, []hash.SHA256Hash) { return vm.Key, vm.ID, nil },
+				next: func(s *vDocSpec) { // the signer promotes itself and drops the capabilityInvocation keys
+					s.Rels["capabilityInvocation"] = []interface{}{vm.ID}
+				}}))
+		}
+		run(g.create("rs:create-Y-controlled-by-X", []string{x.latest().spec.ID}, func(s *vDocSpec, _ *vKey) {
+			s.Rels["capabilityInvocation"] = nil
+		}, nil))
+		y := g.dids[g.order[len(g.order)-1]]
+		if y != nil && y != x && y.latest() != nil {
+			for _, rn := range []string{"capabilityDelegation", "authentication"} {
+				vm := relKeys[rn]
+				run(g.update(vUpdateOpts{kind: "rs:update-controlled-by-" + rn + "-only-key-of-controller", target: y, next: g.randomEdit, signer: func() (*vKey, string, []hash.SHA256Hash) {
+					return vm.Key, vm.ID, []hash.SHA256Hash{x.latest().ref}
+				}}))
+			}
+			run(g.update(vUpdateOpts{kind: "rs:update-controlled-by-controller", target: y, next: g.randomEdit}))
+		}
+	case kind == "deactivated-controller-alias":
+		// controller C is deactivated; its old key is also published by a self-controlled DID E; an update of the
+		// controlled DID names C's DEACTIVATION transaction among its prevs and is signed by the old key via kid E#key
+		run(g.create("da:create-C", nil, nil, nil))
+		c := g.dids[g.order[len(g.order)-1]]
+		if c == nil || c.latest() == nil || len(c.latest().spec.capInvKeys()) == 0 {
+			return
+		}
+		old := c.latest().spec.capInvKeys()[0]
+		run(g.create("da:create-E-publishing-C-key", nil, func(s *vDocSpec, _ *vKey) {
+			s.VMs = append(s.VMs, vVMSpec{ID: s.ID + "#" + old.Key.b64, Key: old.Key})
+			s.Rels["assertionMethod"] = append(s.Rels["assertionMethod"], s.ID+"#"+old.Key.b64)
+		}, nil))
+		e := g.dids[g.order[len(g.order)-1]]
+		run(g.create("da:create-D-controlled-by-C", []string{c.latest().spec.ID}, func(s *vDocSpec, _ *vKey) {
+			s.Rels["capabilityInvocation"] = nil
+		}, nil))
+		d := g.dids[g.order[len(g.order)-1]]
+		if e == nil || d == nil || e == c || d == e || d.latest() == nil || e.latest() == nil {
+			return
+		}
+		run(g.update(vUpdateOpts{kind: "da:deactivate-C", target: c, next: vDeactivate}))
+		if vActive(c) {
+			return
+		}
+		deact := c.latest().ref
+		// kid C#key: not resolvable any more; kid E#key with the deactivation among the prevs
+		run(g.update(vUpdateOpts{kind: "da:update-by-deactivated-controller-own-kid", target: d, next: g.randomEdit, signer: func() (*vKey, string, []hash.SHA256Hash) {
+			return old.Key, old.ID, []hash.SHA256Hash{deact}
+		}}))
+		run(g.update(vUpdateOpts{kind: "da:update-by-deactivated-controller-alias-kid-after-deactivation", target: d, next: g.randomEdit, signer: func() (*vKey, string, []hash.SHA256Hash) {
+			return old.Key, e.latest().spec.ID + "#" + old.Key.b64, []hash.SHA256Hash{deact, e.latest().ref}
+		}}))
 	case kind == "did-prefix":
 		// DIDs that are proper prefixes / extensions of the embedded key's thumbprint; two unrelated keys whose
 		// thumbprints share the first character both try to create that one-character DID
@@ -2401,7 +2534,7 @@ func TestVerifC09(t *testing.T) {
 	}
 	rng := rand.New(rand.NewSource(seed*7919 + 9))
 	scripted := []string{"chain0", "chain1", "chain2", "chain3", "chain4", "chain5", "chain6", "cycle1", "cycle2", "cycle3", "cycle5",
-		"deactivated-controller", "removed-key", "validator-sweep", "embedded-capinv", "handed-over", "key-swap", "did-prefix", "delayed-vdr"}
+		"deactivated-controller", "removed-key", "validator-sweep", "embedded-capinv", "handed-over", "key-swap", "did-prefix", "delayed-vdr", "unknown-did", "relationship-subsets", "deactivated-controller-alias"}
 	for h := 0; h < nHist; h++ {
 		kind := "mixed"
 		if h%2 == 0 {
